@@ -1186,3 +1186,75 @@ def numeric_vjp(rep, fnd, pid, tier):
                               {"api": "DTCWTInverse.backward", "check": "numeric_vjp", "cfg": cfg})
     rep.validated(n)
     rep.count("numeric_adjoint_checks", n)
+
+
+def big_layouts(rep, fnd, records, pid, tier):
+    """The layouts again on batches beyond every size threshold (the default ladder 2^16 / 2^20 / 2^22 elements and every
+    constant census.thresholds() finds in the library's source; N >= 2 items): the subbands of each of the 30 layouts (and a
+    sample of their negative aliases) are the default layout's subbands OF EACH ITEM ALONE with the axes moved, and the
+    inverse with the same pair reconstructs.  A code path that exists only for big inputs (chunked batches, another
+    arrangement above a size) meets every layout here."""
+    from . import census
+    torch.set_default_dtype(torch.float32)
+    try:
+        rng = np.random.default_rng(35000 + seed())
+        opts = [r for r in records if r.get("kind") == "dt2.opts"]
+        if len(opts) != 1:
+            return
+        pairs = opts[0]["pairs"]
+        canon = [p for p in pairs if p["o_dim"] >= 0 and p["ri_dim"] >= 0]
+        alias = [p for p in pairs if p["o_dim"] < 0 or p["ri_dim"] < 0]
+        ths = census.thresholds()
+        rep.extra["census_thresholds"] = ths
+        n_ok = 0
+        for T in ths:
+            top = T == max(ths)
+            # every threshold gets a sample of layouts; the largest gets all of them (the cost is the transform of > T elements)
+            sel = canon if (top or tier != "quick") else canon[::5]
+            sel = sel + [alias[int(i)] for i in rng.integers(0, len(alias), size=6 if top else 2)]
+            N = 2 if T >= (1 << 20) else 3
+            side = int(np.ceil(np.sqrt((T + 1) / N)))
+            side += side % 2
+            shp = (N, 1, side, side + 2)
+            x = torch.tensor(rng.standard_normal(shp), dtype=torch.float32)
+            base = pw.DTCWTForward(J=1)
+            items = [base(x[k:k + 1]) for k in range(N)]
+            yl0 = torch.cat([i[0] for i in items], dim=0)
+            yh0 = [torch.cat([i[1][j] for i in items], dim=0) for j in range(1)]
+            for idx, p in enumerate(sel):
+                od, rd, lay = p["o_dim"], p["ri_dim"], p["layout"]
+                cfg = dict(o_dim=od, ri_dim=rd, shape=list(shp), J=1, dtype="float32", threshold=T)
+                case = {"api": "DTCWTForward/Inverse(o_dim, ri_dim)", "check": "big_layouts", "cfg": cfg}
+                rep.validated()
+                rep.nontriv(("big_layouts", od, rd, shp))
+                try:
+                    yl, yh = pw.DTCWTForward(J=1, o_dim=od, ri_dim=rd)(x)
+                except Exception as e:   # noqa
+                    rep.violation("DTCWTForward(o_dim=%d, ri_dim=%d) raised %r on a batch of shape %s" % (od, rd, e, list(shp)), dict(case, observed=repr(e)))
+                    continue
+                perm_src = [None] * 6
+                for name, dflt in (("n", 0), ("c", 1), ("o", 2), ("h", 3), ("w", 4), ("ri", 5)):
+                    perm_src[lay[name]] = dflt
+                ok = tuple(yl.shape) == tuple(yl0.shape) and torch.equal(yl, yl0)
+                for a, b in zip(yh, yh0):
+                    want = b.permute(*perm_src)
+                    ok = ok and tuple(a.shape) == tuple(want.shape) and torch.equal(a, want)
+                if not ok:
+                    rep.violation("DTCWTForward(o_dim=%d, ri_dim=%d) on a batch of shape %s (%d elements): the subbands are not the default "
+                                  "subbands of each item with the axes moved to O@%d, RI@%d (got %s)"
+                                  % (od, rd, list(shp), int(np.prod(shp)), lay["o"], lay["ri"], [tuple(a.shape) for a in yh]), case)
+                    continue
+                if idx % 5 == 0:
+                    try:
+                        xr = pw.DTCWTInverse(o_dim=od, ri_dim=rd)((yl, yh))
+                    except Exception as e:   # noqa
+                        rep.violation("DTCWTInverse(o_dim=%d, ri_dim=%d) raised %r on the forward's output for a batch of shape %s"
+                                      % (od, rd, e, list(shp)), dict(case, observed=repr(e)))
+                        continue
+                    if tuple(xr.shape) != tuple(x.shape) or float((xr - x).abs().max()) > 1e-4 * float(x.abs().max()):
+                        rep.violation("DTCWTInverse(o_dim=%d, ri_dim=%d) does not reconstruct a batch of shape %s" % (od, rd, list(shp)), case)
+                        continue
+                n_ok += 1
+        rep.count("big_layouts_ok", n_ok)
+    finally:
+        torch.set_default_dtype(torch.float64)
